@@ -85,7 +85,7 @@ Definition req_prop (eng : engine) (tbl : list sroute) (o : reqobs) : bool :=
 (* ---- finding guards, per request: the guards of the theorems (C03/Proofs.v, C03/ProofsTree.v),
         evaluated on the input and on the routes the model's own trace consults *)
 
-Definition g_call (fx2 fx6 fx7 : bool) (eng : engine) (tbl : list sroute) (q : request) (k : call) : list Z :=
+Definition g_call (fx1 fx2 fx4 fx6 fx7 : bool) (eng : engine) (tbl : list sroute) (q : request) (k : call) : list Z :=
   match nth_error tbl (k_vid k) with
   | None => []
   | Some s =>
@@ -96,10 +96,10 @@ Definition g_call (fx2 fx6 fx7 : bool) (eng : engine) (tbl : list sroute) (q : r
     | None => []
     | Some segs =>
       guards [
-        (1%Z, guard_F1 eng (rl_hosts d) q);
+        (1%Z, guard_F1 fx1 eng (rl_hosts d) q);
         (2%Z, negb fx2 && guard_F2_params s);
         (3%Z, guard_F3 tbl s && negb (is_nil ps));   (* the renamed keys reach the path_params of the route *)
-        (4%Z, guard_F4 (rl_methods d));
+        (4%Z, guard_F4 fx4 (rl_methods d));
         (6%Z, on_params (guard_F6 fx6) (rl_slash d) q names segs ps);
         (7%Z, on_params (guard_F7 fx7) (rl_slash d) q names segs ps);
         (8%Z, on_params guard_F8 (rl_slash d) q names segs ps)
@@ -107,10 +107,10 @@ Definition g_call (fx2 fx6 fx7 : bool) (eng : engine) (tbl : list sroute) (q : r
     end
   end.
 
-Definition g_req (fx2 fx5 fx6 fx7 : bool) (eng : engine) (es : list centry) (t : tree) (tbl : list sroute) (q : request)
+Definition g_req (fx1 fx2 fx4 fx5 fx6 fx7 : bool) (eng : engine) (es : list centry) (t : tree) (tbl : list sroute) (q : request)
            (mcalls : list call) (mout : outcome) : list Z :=
-  concat (map (g_call fx2 fx6 fx7 eng tbl q) mcalls) ++
-  guards [ (5%Z, negb fx5 && guard_F5 fx2 fx6 fx7 eng es t q) ] ++
+  concat (map (g_call fx1 fx2 fx4 fx6 fx7 eng tbl q) mcalls) ++
+  guards [ (5%Z, negb fx5 && guard_F5 fx1 fx2 fx6 fx7 eng es t q) ] ++
   match mout, matched_vid mcalls with
   | ORule _ _ _, Some v =>
     match nth_error tbl v with
@@ -142,23 +142,23 @@ Definition loadobs_eqb (a b : loadobs) : bool :=
   | _, _ => false
   end.
 
-Definition check (fx2 fx3 fx5 fx6 fx7 : bool) (c : case) : verdict :=
+Definition check (fx1 fx2 fx3 fx4 fx5 fx6 fx7 : bool) (c : case) : verdict :=
   let eng := eng_of (c_oracle c) in
   let tbl := flat_routes 0 (c_rules c) in
   (* the property on whatever the implementation served, also when the model refuses the rule set *)
   let obs_prop := forallb (req_prop eng tbl) (c_reqs c) in
-  match load fx3 (c_rules c) with
+  match load fx3 fx4 (c_rules c) with
   | CreateFailed => {| v_corr := loadobs_eqb (c_load c) OCreateFailed; v_prop := obs_prop; v_guards := [] |}
   | AddFailed => {| v_corr := loadobs_eqb (c_load c) OAddFailed; v_prop := obs_prop; v_guards := [] |}
   | ModelFuel => {| v_corr := false; v_prop := obs_prop; v_guards := [] |}
   | Loaded es t =>
     let rows := map (fun o =>
-                  let '(mout, mcalls) := serve fx2 fx5 fx6 fx7 eng es t (ro_req o) in
+                  let '(mout, mcalls) := serve fx1 fx2 fx5 fx6 fx7 eng es t (ro_req o) in
                   let ok := req_prop eng tbl o in
                   (outcome_eqb mout (ro_out o) && list_eqb call_eqb mcalls (ro_calls o),
                    ok,
                    (* guards are only needed (and only computed) for a request whose property fails *)
-                   if ok then [] else g_req fx2 fx5 fx6 fx7 eng es t tbl (ro_req o) mcalls mout)) (c_reqs c) in
+                   if ok then [] else g_req fx1 fx2 fx4 fx5 fx6 fx7 eng es t tbl (ro_req o) mcalls mout)) (c_reqs c) in
     let failing := filter (fun r => negb (snd (fst r))) rows in
     {| v_corr := loadobs_eqb (c_load c) OLoaded && forallb (fun r => fst (fst r)) rows;
        v_prop := is_nil failing;
